@@ -28,6 +28,9 @@ def run(ctx):
     check_v1_pools(ctx, model, C, "C01-V1")
     check_fee_lookup_same_asset(ctx, model, C, "C01-V1")
     check_raw_balance_single_consumer(ctx, model, C, "C01-V1")
+    # owed protocol fees: the pending entry is transferred to the collector and zeroed only where transferred (C07-F3's rule)
+    from .C07 import check_collect as _pool_collect
+    _pool_collect(ctx, model, C, "%s::commands::collect_protocol_fees" % C, "%s::state::COLLECTED_PROTOCOL_FEES" % C, rule="C01-V1")
     check_v2_v3_pool(ctx, model, C, "C01-V3")
     check_v4_min_liquidity(ctx, model, "%s::commands::provide_liquidity" % C, "C01-V4")
     check_no_lp_outflow(ctx, model, C, "C01-V4", "liquidity_token")
